@@ -3,10 +3,10 @@ from __future__ import annotations
 
 from typing import Dict, List, Optional, Sequence, Tuple
 
-from .rules import cost, decode, dp, geom, render, serial, utils
+from .rules import cost, decode, dp, events, geom, purity, render, serial, utils
 
 RULES = {}
-for _m in (dp, decode, cost, serial, utils, geom, render):
+for _m in (dp, decode, cost, events, purity, serial, utils, geom, render):
     RULES.update(_m.RULES)
 
 # construct prefixes
